@@ -560,4 +560,6 @@ func runC19(c *Ctx) {
 			}
 		}
 	}
+	// R6: on the os-backed server the read-only gate runs before handlePacket; an unknown extension must pass it
+	checkExtendedReadonly(c, "C19")
 }
